@@ -228,7 +228,7 @@ PROPS = {
         "spec": None,
         "out_profiles": ["all", "core", "buffer", "ind"],
         "out_what": ("gantt",),
-        "n_out": {"quick": 150, "thorough": 2000},
+        "n_out": {"quick": 220, "thorough": 2000},
         "nontrivial": lambda s: True,
         "rule": "OUT: generated problems solved with real z3, rendered with render_gantt_matplotlib on the Agg backend in "
                 "both modes; bar rectangles (PolyCollection vertices), their labels and label positions, row tick labels "
